@@ -243,8 +243,17 @@ def run(rec, shard, nshards, t):
         gen = R.RuleGen(rnd)
         for i in range(nfiles):
             rf = gen.rule_file()
+            if rnd.random() < .2:
+                # a transform that cannot be evaluated (for every item, or only for items without custom fields) ahead of one that decides
+                # which rule matches: the failing one is skipped on its own, the later ones still apply
+                rf.transforms = [rnd.choice([('field.memo', 'trim(field.memo)'), ('field.description', 'strip_suffix(field.description, field.nope)'),
+                                             ('field.zz', 'field.nope + "x"')])] + \
+                    [rnd.choice([('field.description', 'regex_replace(field.description, "^SQ \\\\*", "")'), ('field.description', 'strip_prefix(field.description, "UBER ")')])]
+                rf.rules.insert(rnd.randint(0, len(rf.rules)), R.Rule('AfterTransform', rnd.choice(['startswith("STAR")', 'startswith("EATS") or startswith("TRIP")',
+                                                                                             'startswith("COSTCO")']), 'Transformed', 'x'))
+                rec.count('files_with_failing_transform_before_deciding_one')
             rows = world.ROWSETS[0] if rnd.random() < .7 else rnd.choice(world.ROWSETS)
-            txns = world.pool(rnd, ntx)
+            txns = world.pool(rnd, ntx, with_fields=rnd.random() < .6)      # else ~15% of the transactions carry no custom fields at all
             txns += world.field_twins(rnd, txns)
             judge_file(rec, rf, txns, rows, tmp, rnd, deep=True)
             judge_pipeline(rec, rf, txns, rows, tmp, rnd)
